@@ -50,7 +50,11 @@ def gen_program(rng, idx, adversarial):
                 t = t.replace("{k}", str(size))
             if "{str}" in t:
                 s = "".join(rng.choice("abcXYZ019 _") for _ in range(rng.randint(1, 7)))
-                size = len(s)
+                if rng.random() < 0.12:
+                    # a character outside ASCII: the assembler may refuse it, but if it accepts the string it must reserve what it emits
+                    pos = rng.randrange(len(s) + 1)
+                    s = s[:pos] + rng.choice("\u00c9\u00b5\u20ac") + s[pos:]
+                size = len(s.encode("utf-8"))
                 t = t.replace("{str}", s)
             lines.append((label, t, ("B", need), size))
     for lb in unplaced:                      # remaining labels at the end
@@ -172,6 +176,9 @@ def run(ctx):
             continue
         if not ans.startswith("OK"):
             ctx.count("rejected:" + ans.split(":")[0][4:])
+            if not sources[i].isascii():
+                ctx.count("rejected:non_ascii_string")         # refusing a non-ASCII defm string is a clean answer
+                continue
             if sig_adv is None:
                 ctx.report(["py", "well_formed_program_rejected", ans.split(":")[1][:40] if ":" in ans else ans[:40]], f"assembler rejected a generated program: {ans[:160]}", {"source": sources[i], "model": m[:300]})
             continue
